@@ -593,14 +593,97 @@ async fn blocked_accept_case(seed: u64) -> Out {
 	out
 }
 
+/// Directed family: the subscribe response does not fit into `max_response_body_size` (long ids from the id provider and a
+/// small limit), so the call is refused and no subscription comes into being: an unsubscribe naming that id answers false,
+/// and the connection's slots are all free afterwards.
+async fn oversized_accept_case(seed: u64) -> Out {
+	let mut out = Out::default();
+	let mut r = Rng::new(seed);
+	let reg = Registry::default();
+	let ids = QueuedIds::default();
+	let cap = 1 + r.below(2) as u32;
+	let limit = 100 + r.below(60) as u32;
+	let cfg = ServerConfig::builder().max_subscriptions_per_connection(cap).max_connections(10).max_response_body_size(limit).set_id_provider(ids.clone()).build();
+	let srv = MemServer::new(cfg, subctl::module(reg.clone()));
+	let Ok(mut ws) = srv.ws().await else {
+		out.violations.push(("setup-failed/ws-connect".into(), "oversized-accept scenario".into()));
+		return out;
+	};
+	macro_rules! bad {
+		($sig:expr, $($arg:tt)*) => { out.violations.push(($sig.to_string(), format!($($arg)*))) };
+	}
+	let raw = r.chance(1, 4);
+	let (sub, unsub) = if raw { ("sub_raw", "unsub_raw") } else { ("sub", "unsub") };
+	let mut next_call = 0u64;
+	macro_rules! call {
+		($method:expr, $params:expr) => {{
+			next_call += 1;
+			let _ = ws.send_text(&json!({"jsonrpc": "2.0", "id": next_call, "method": $method, "params": $params}).to_string()).await;
+			settle().await;
+			next_call
+		}};
+	}
+	macro_rules! response {
+		($id:expr) => {{ ws.drain_until_idle(Duration::from_millis(50)).await.iter().filter_map(|f| f.json()).find(|v| v["id"] == json!($id)) }};
+	}
+	let rounds = 1 + r.usize(3);
+	for round in 0..rounds {
+		let long = format!("L{round}-{}", "x".repeat(limit as usize + r.usize(40)));
+		ids.0.lock().unwrap().push_back(SubscriptionId::Str(long.clone().into()));
+		let tag = format!("big{round}");
+		let c = call!(sub, json!([tag]));
+		let Some(h) = reg.get(&tag) else {
+			bad!("refused-with-free-slot/subscribe", "oversized-accept scenario: subscribe {round} did not reach its handler");
+			return out;
+		};
+		// accept() gives up (by design it panics in the handler when the response cannot fit): the call is answered with an error
+		let rep = h.cmd(Cmd::Accept).await.map(|t| t.reply);
+		settle().await;
+		let rp = response!(c);
+		out.ops_checked += 1;
+		match &rp {
+			Some(v) if v.get("error").is_some() => {}
+			other => {
+				bad!("accept-response-wrong/response-above-the-limit", "the subscription id has {} bytes, max_response_body_size is {limit}: the subscribe call was answered {other:?} (handler saw {rep:?})", long.len());
+				return out;
+			}
+		}
+		// no subscription exists under that id
+		let u = call!(unsub, json!([long]));
+		out.ops_checked += 1;
+		match response!(u) {
+			Some(v) if v["result"] == json!(true) => bad!("unsubscribe-result-wrong/never-subscribed/response-above-the-limit", "the subscribe call was refused (response too big), yet unsubscribe of its id answered true"),
+			_ => out.unsub_false += 1,
+		}
+	}
+	// every slot is free
+	ids.0.lock().unwrap().clear();
+	for k in 0..cap {
+		let tag = format!("fill{k}");
+		let c = call!(sub, json!([tag]));
+		match reg.get(&tag) {
+			Some(h) => {
+				let _ = h.cmd(Cmd::Accept).await;
+				out.admissions += 1;
+			}
+			None => {
+				let rp = response!(c);
+				bad!("refused-with-free-slot/subscribe", "oversized-accept scenario: after {rounds} refused subscribe call(s), subscribe {k} of {cap} was not admitted: {rp:?}");
+				break;
+			}
+		}
+	}
+	out
+}
+
 /// Id provider driven by the harness: hands out the queued ids first (so that an id can be issued again on the same
 /// connection, as the library's own `NoopIdProvider` or a short `RandomStringIdProvider` do), then fresh numbers.
 #[derive(Debug, Clone, Default)]
-struct QueuedIds(Arc<std::sync::Mutex<std::collections::VecDeque<u64>>>, Arc<AtomicU64>);
+struct QueuedIds(Arc<std::sync::Mutex<std::collections::VecDeque<SubscriptionId<'static>>>>, Arc<AtomicU64>);
 impl IdProvider for QueuedIds {
 	fn next_id(&self) -> SubscriptionId<'static> {
 		match self.0.lock().unwrap().pop_front() {
-			Some(x) => SubscriptionId::Num(x),
+			Some(x) => x,
 			None => SubscriptionId::Num(1_000_000 + self.1.fetch_add(1, Ordering::SeqCst)),
 		}
 	}
@@ -626,7 +709,13 @@ async fn id_reuse_case(seed: u64) -> Out {
 	}
 	let raw = r.chance(1, 4);
 	let (sub, unsub) = if raw { ("sub_raw", "unsub_raw") } else { ("sub", "unsub") };
-	let x = 7 + r.below(1000);
+	// the id: a number, the same digits as a string (a counter rendered with to_string()), or some other string
+	let xn = 7 + r.below(1000);
+	let (xid, x, other_spelling): (SubscriptionId<'static>, Value, Option<Value>) = match r.below(3) {
+		0 => (SubscriptionId::Num(xn), json!(xn), Some(json!(xn.to_string()))),
+		1 => (SubscriptionId::Str(xn.to_string().into()), json!(xn.to_string()), Some(json!(xn))),
+		_ => (SubscriptionId::Str(format!("0x{xn:x}").into()), json!(format!("0x{xn:x}")), None),
+	};
 	let other_conn = r.chance(1, 3);
 	let mut next_call = 0u64;
 	macro_rules! call {
@@ -641,14 +730,14 @@ async fn id_reuse_case(seed: u64) -> Out {
 		($ws:expr, $id:expr) => {{ $ws.drain_until_idle(Duration::from_millis(50)).await.iter().filter_map(|f| f.json()).find(|v| v["id"] == json!($id)) }};
 	}
 	// A
-	ids.0.lock().unwrap().push_back(x);
+	ids.0.lock().unwrap().push_back(xid.clone());
 	let _a_call = call!(ws1, sub, json!(["a"]));
 	let Some(ha) = reg.get("a") else {
 		bad!("refused-with-free-slot/subscribe", "id-reuse scenario: subscribe A did not reach its handler");
 		return out;
 	};
 	match ha.cmd(Cmd::Accept).await.map(|t| t.reply) {
-		Some(Reply::Accepted { sub_id }) if sub_id == json!(x) => {}
+		Some(Reply::Accepted { sub_id }) if sub_id == x => {}
 		other => {
 			bad!("accept-failed/connection-open", "id-reuse scenario, A: {other:?}");
 			return out;
@@ -669,7 +758,7 @@ async fn id_reuse_case(seed: u64) -> Out {
 		}
 	}
 	// B gets the same id
-	ids.0.lock().unwrap().push_back(x);
+	ids.0.lock().unwrap().push_back(xid.clone());
 	let wsb = if other_conn { &mut ws2 } else { &mut ws1 };
 	let _b_call = call!(wsb, sub, json!(["b"]));
 	let Some(hb) = reg.get("b") else {
@@ -677,7 +766,7 @@ async fn id_reuse_case(seed: u64) -> Out {
 		return out;
 	};
 	match hb.cmd(Cmd::Accept).await.map(|t| t.reply) {
-		Some(Reply::Accepted { sub_id }) if sub_id == json!(x) => {}
+		Some(Reply::Accepted { sub_id }) if sub_id == x => {}
 		other => {
 			bad!("accept-failed/connection-open", "id-reuse scenario, B: {other:?}");
 			return out;
@@ -713,6 +802,18 @@ async fn id_reuse_case(seed: u64) -> Out {
 	match hb.cmd(Cmd::Send(0, json!("still here"))).await.map(|t| t.reply) {
 		Some(Reply::Sent(Ok(()))) => {}
 		other => bad!(format!("send-failed-while-active/{where_}"), "{other:?}"),
+	}
+	// the same digits in the other JSON type name another id: nothing may be unsubscribed by them
+	if let Some(o) = &other_spelling {
+		let wsb = if other_conn { &mut ws2 } else { &mut ws1 };
+		let u = call!(wsb, unsub, json!([o]));
+		out.ops_checked += 1;
+		let rp = response!(wsb, u);
+		if rp.as_ref().map(|v| v["result"] == json!(true)).unwrap_or(false) {
+			bad!(format!("unsubscribe-result-wrong/other-json-type-of-the-id/{where_}"), "the live subscription has id {x}; unsubscribe [{o}] answered {rp:?}");
+		} else {
+			out.unsub_false += 1;
+		}
 	}
 	for (want, class) in [(true, "active"), (false, "already-unsubscribed")] {
 		let wsb = if other_conn { &mut ws2 } else { &mut ws1 };
@@ -1292,6 +1393,8 @@ fn main() {
 		if let Some(sc) = w["witness"]["scenario"].as_str() {
 			let o = if sc.starts_with("a subscription id is issued again") {
 				block_on_virtual(id_reuse_case(seed))
+			} else if sc.starts_with("the subscribe response does not fit") {
+				block_on_virtual(oversized_accept_case(seed))
 			} else if sc.starts_with("the subscribe call is given up") {
 				block_on_virtual(dropped_call_case(seed))
 			} else {
@@ -1388,6 +1491,25 @@ fn main() {
 			}
 		}
 	}
+	if !replay {
+		let n = ctx.tier.pick(200u64, 10_000);
+		let seed = ctx.seed;
+		let res = run_parallel((0..n).collect(), |_, i| {
+			let s = Rng::fork(seed, 63_000_000 + i).next_u64();
+			(s, block_on_virtual(oversized_accept_case(s)))
+		});
+		for (s, o) in res {
+			ev.eval();
+			ev.count("cases_subscribe_response_above_the_limit", 1);
+			ev.count("operations_checked", o.ops_checked as u64);
+			if o.admissions > 0 {
+				ev.nontrivial(&("oversized-accept", s));
+			}
+			for (sig, d) in o.violations {
+				violations.push(Violation::new(sig, d, json!({"scenario": "the subscribe response does not fit into max_response_body_size", "seed": s, "history": o.history})));
+			}
+		}
+	}
 	let results = run_parallel(specs.chunks(64).map(|c| c.to_vec()).collect(), |_, chunk| {
 		let mut ev = Evidence::new("");
 		let mut v = Vec::new();
@@ -1408,7 +1530,8 @@ fn main() {
 		violations.extend(v);
 	}
 	for p in take_panics() {
-		if p.in_library {
+		// accept() panics by design when the response carrying the subscription id exceeds max_response_body_size
+		if p.in_library && !p.message.contains("The subscription response was too big") {
 			violations.push(Violation::new(
 				format!("library-panic/{}", p.location.rsplit('/').next().unwrap_or("").split(':').next().unwrap_or("")),
 				p.message.clone(),
